@@ -59,8 +59,8 @@ fn project(book: &umya::Spreadsheet) -> Value {
             let mut rows: Vec<Value> = ws
                 .get_row_dimensions()
                 .iter()
-                .filter(|r| *r.get_height() != 0.0 || *r.get_hidden() || *r.get_thick_bot() || *r.get_custom_height())
-                .map(|r| json!([r.get_row_num(), r.get_height(), r.get_custom_height(), r.get_hidden(), r.get_thick_bot()]))
+                .filter(|r| *r.get_height() != 0.0 || *r.get_hidden() || *r.get_thick_bot() || *r.get_custom_height() || !world::style_fp(r.get_style()).is_empty())
+                .map(|r| json!([r.get_row_num(), r.get_height(), r.get_custom_height(), r.get_hidden(), r.get_thick_bot(), world::style_fp(r.get_style())]))
                 .collect();
             rows.sort_by_key(|x| x[0].as_u64());
             // get_cell_mut materialises a column dimension with the library's default width (8.38) for the
@@ -68,8 +68,8 @@ fn project(book: &umya::Spreadsheet) -> Value {
             let mut cols: Vec<Value> = ws
                 .get_column_dimensions()
                 .iter()
-                .filter(|c| *c.get_width() != 8.38 || *c.get_hidden())
-                .map(|c| json!([c.get_col_num(), c.get_width(), c.get_hidden()]))
+                .filter(|c| *c.get_width() != 8.38 || *c.get_hidden() || !world::style_fp(c.get_style()).is_empty())
+                .map(|c| json!([c.get_col_num(), c.get_width(), c.get_hidden(), world::style_fp(c.get_style())]))
                 .collect();
             cols.sort_by_key(|x| x[0].as_u64());
             // tables with everything they carry (columns, totals row label/function, style info)
@@ -81,7 +81,10 @@ fn project(book: &umya::Spreadsheet) -> Value {
                     format!("{}|{}|{:?}|{}|{}|{:?}|{:?}", t.get_name(), t.get_display_name(), t.get_area(), t.get_totals_row_shown(), t.get_totals_row_count(), cols, t.get_style_info().map(|s| s.get_name().to_string()))
                 })
                 .collect();
-            json!({"rows": rows, "cols": cols, "tables": tables})
+            // pictures: where, under which name, which bytes
+            let mut images: Vec<String> = ws.get_image_collection().iter().map(|i| format!("{}|{}|{}", i.get_coordinate(), i.get_image_name(), world::h_bytes(i.get_image_data()))).collect();
+            images.sort();
+            json!({"rows": rows, "cols": cols, "tables": tables, "images": images})
         })
         .collect();
     if let Some(sheets) = v["sheets"].as_array_mut() {
@@ -269,7 +272,19 @@ pub fn execute(case: &Value, _scratch: &str) -> Outcome {
     if src_kind != "corpus" {
         if let (Ok(d0), Some(d1)) = (decode::decode(&input), &chain[0].d) {
             out.step("independent_orig_vs_gen1", 1);
-            let (a, b) = (d0.content(), d1.content());
+            // a cell element without value and formula carries formatting only; formatting is judged on the
+            // effective styles above, not here
+            let strip = |mut v: Value| -> Value {
+                if let Some(sheets) = v["sheets"].as_array_mut() {
+                    for s in sheets {
+                        if let Some(cells) = s["cells"].as_object_mut() {
+                            cells.retain(|_, c| !(c[0].as_str() == Some("n") && c[1].as_str() == Some("") && c[2].is_null()));
+                        }
+                    }
+                }
+                v
+            };
+            let (a, b) = (strip(d0.content()), strip(d1.content()));
             if a != b {
                 out.violate(Verdict::new(
                     "C04",
